@@ -75,6 +75,8 @@ def handle(ch, out, ops):
                 promoted = False
             elif op == "cancel":
                 cluster.mark_canceled()
+            elif op == "complete":
+                cluster.mark_complete()
             elif op == "jsonly":
                 cluster.job_status.batch_index += 1
                 cluster.serialize_jobs("verif")
